@@ -12,11 +12,12 @@ pub fn conn_err(e: &ConnectionError) -> Value {
         },
         ConnectionError::Remote(inc) => match inc {
             ConnectionErrorIncoming::ApplicationClose { error_code } => json!({"k": "conn_err", "origin": "remote", "code": error_code}),
-            ConnectionErrorIncoming::Timeout => json!({"k": "conn_err", "origin": "timeout", "code": -1}),
+            // (`class`: the same QUIC condition can surface as ConnectionError::Timeout or wrapped in Remote; C17 tells them apart)
+            ConnectionErrorIncoming::Timeout => json!({"k": "conn_err", "origin": "timeout", "code": -1, "class": "remote"}),
             ConnectionErrorIncoming::InternalError(s) => json!({"k": "conn_err", "origin": "transport_internal", "code": -1, "other": s}),
             ConnectionErrorIncoming::Undefined(_) => json!({"k": "conn_err", "origin": "undefined", "code": -1}),
         },
-        ConnectionError::Timeout => json!({"k": "conn_err", "origin": "timeout", "code": -1}),
+        ConnectionError::Timeout => json!({"k": "conn_err", "origin": "timeout", "code": -1, "class": "timeout"}),
         _ => json!({"k": "conn_err", "origin": "unknown", "code": -1}),
     }
 }
